@@ -91,5 +91,8 @@ def truth_row(snap, M):
                                     if o[1] == "WAITING"),
         "observations_finished": sum(1 for o in snap["obs"]
                                      if o[1] == "FINISHED"),
-        "scheduler_observation_queue": len(snap["queue"]),
+        # from the call log when present (the list object the scheduler's
+        # loop appends to can differ from the attribute the column reads)
+        "scheduler_observation_queue": len(snap.get("queue_log",
+                                                    snap["queue"])),
     }
